@@ -1047,5 +1047,485 @@ pub mod ss {
             lemma_count_none(st, running_in(g, bs, j));
         }
     }
+
+    // --- C06(a): liveness.  live_inv: a Want build still waits for a producer; qc_inv: a Ready build is in the ready queue and a
+    //     Queued build in some pool's queue (holds whenever no popped build is "in hand": qc_except names the one in hand).
+    pub open spec fn live_inv(g: Graph, st: Seq<BuildState>) -> bool {
+        forall|b: int| 0 <= b < st.len() && #[trigger] st[b] == BuildState::Want ==> !producers_done(g, st, b)
+    }
+    pub open spec fn qc_except(bs: BuildStates, x: int) -> bool {
+        forall|id: BuildId| ix(id) < st_of(bs).len() && ix(id) != x ==>
+            ((#[trigger] st_of(bs)[ix(id)]) == BuildState::Ready ==> bs.ready@.contains(id))
+            && (st_of(bs)[ix(id)] == BuildState::Queued ==> in_some_queue(bs, id))
+    }
+    pub open spec fn qc_inv(bs: BuildStates) -> bool { qc_except(bs, -1) }
+    /// the liveness invariant with build x "in hand" (x = -1: none); opaque outside the lemmas below (keeps the scheduler's queries small)
+    #[verifier::opaque]
+    pub open spec fn lq_x(g: Graph, bs: BuildStates, x: int) -> bool { live_inv(g, st_of(bs)) && qc_except(bs, x) }
+    pub open spec fn lq(g: Graph, bs: BuildStates) -> bool { lq_x(g, bs, -1) }
+    /// every build that lists f among its ordering inputs is among f's dependents (kept by Graph::add_build: unit graph)
+    #[verifier::opaque]
+    pub open spec fn deps_complete(g: Graph) -> bool { gs::deps_complete(g) }
+    /// "for every acyclic graph": a topological numbering of the steps along ordering inputs
+    pub open spec fn topo_ok(g: Graph, t: spec_fn(int) -> nat) -> bool {
+        forall|b: int, j: int| 0 <= b < gs::builds(g).len() && 0 <= j < gs::ordering_ins(gs::builds(g)[b]).len() ==>
+            match gs::files(g)[ix(#[trigger] gs::ordering_ins(gs::builds(g)[b])[j])].input { Some(p) => t(ix(p)) < t(b), None => true }
+    }
+    pub open spec fn acyclic(g: Graph) -> bool { exists|t: spec_fn(int) -> nat| topo_ok(g, t) }
+
+    /// a state update that creates no Done build keeps live_inv, provided a build set to Want really waits
+    pub proof fn lemma_live_update(g: Graph, st0: Seq<BuildState>, i: int, v: BuildState)
+        requires live_inv(g, st0), 0 <= i < st0.len(), v != BuildState::Done,
+            v == BuildState::Want ==> !producers_done(g, st0.update(i, v), i),
+        ensures live_inv(g, st0.update(i, v))
+    {
+        let st1 = st0.update(i, v);
+        assert forall|b: int| 0 <= b < st1.len() && #[trigger] st1[b] == BuildState::Want implies !producers_done(g, st1, b) by {
+            if b != i {
+                assert(st0[b] == BuildState::Want);
+                let j = choose|j: int| 0 <= j < gs::ordering_ins(gs::builds(g)[b]).len() && !producer_done(g, st0, #[trigger] gs::ordering_ins(gs::builds(g)[b])[j]);
+                assert(!producer_done(g, st1, gs::ordering_ins(gs::builds(g)[b])[j]));
+            }
+        }
+    }
+    pub proof fn lemma_qc_set(g: Graph, b0: BuildStates, b1: BuildStates, id: BuildId, build: Build, state: BuildState, pushq: bool)
+        requires qc_except(b0, ix(id) as int), effect(b0, b1, id, build, state, pushq), ix(id) < st_of(b0).len(),
+            state == BuildState::Queued ==> pushq && first_key(pools_of(b0), pool_name(build)) >= 0,
+        ensures qc_inv(b1)
+    {
+        let pi = first_key(pools_of(b0), pool_name(build));
+        lemma_first_key(pools_of(b0), pool_name(build));
+        assert forall|d: BuildId| ix(d) < st_of(b1).len() implies
+            ((#[trigger] st_of(b1)[ix(d)]) == BuildState::Ready ==> b1.ready@.contains(d))
+            && (st_of(b1)[ix(d)] == BuildState::Queued ==> in_some_queue(b1, d)) by {
+            if ix(d) == ix(id) {
+                assert(d.0 == id.0);
+                assert(d == id);
+                if state == BuildState::Ready { assert(b1.ready@ == b0.ready@.push(id)); assert(b1.ready@[b0.ready@.len() as int] == id); }
+                if state == BuildState::Queued {
+                    assert(pools_of(b1)[pi].1.queued@ == pools_of(b0)[pi].1.queued@.push(id));
+                    assert(pools_of(b1)[pi].1.queued@[pools_of(b0)[pi].1.queued@.len() as int] == id);
+                }
+            } else {
+                assert(st_of(b1)[ix(d)] == st_of(b0)[ix(d)]);
+                if st_of(b0)[ix(d)] == BuildState::Ready {
+                    let k = choose|k: int| 0 <= k < b0.ready@.len() && b0.ready@[k] == d;
+                    assert(b1.ready@[k] == d);
+                }
+                if st_of(b0)[ix(d)] == BuildState::Queued {
+                    let j = choose|j: int| 0 <= j < pools_of(b0).len() && (#[trigger] pools_of(b0)[j]).1.queued@.contains(d);
+                    let q = pools_of(b0)[j].1.queued@;
+                    let k = choose|k: int| 0 <= k < q.len() && q[k] == d;
+                    assert(pools_of(b1)[j].1.queued@[k] == d);
+                }
+            }
+        }
+    }
+    /// popping the head of the ready queue leaves exactly that build "in hand"
+    pub proof fn lemma_qc_pop_ready(b0: BuildStates, b1: BuildStates, id: BuildId)
+        requires qc_inv(b0), b0.ready@.len() > 0, id == b0.ready@[0], b1.ready@ == b0.ready@.drop_first(),
+            b1.states == b0.states, b1.pools == b0.pools,
+        ensures qc_except(b1, ix(id) as int)
+    {
+        assert forall|d: BuildId| ix(d) < st_of(b1).len() && ix(d) != ix(id) implies
+            ((#[trigger] st_of(b1)[ix(d)]) == BuildState::Ready ==> b1.ready@.contains(d))
+            && (st_of(b1)[ix(d)] == BuildState::Queued ==> in_some_queue(b1, d)) by {
+            if st_of(b0)[ix(d)] == BuildState::Ready {
+                let k = choose|k: int| 0 <= k < b0.ready@.len() && b0.ready@[k] == d;
+                assert(k != 0);
+                assert(b1.ready@[k - 1] == d);
+            }
+            if st_of(b0)[ix(d)] == BuildState::Queued {
+                let j = choose|j: int| 0 <= j < pools_of(b0).len() && (#[trigger] pools_of(b0)[j]).1.queued@.contains(d);
+                assert(pools_of(b1)[j].1.queued@.contains(d));
+            }
+        }
+    }
+    pub proof fn lemma_qc_pop_queued(b0: BuildStates, b1: BuildStates, id: BuildId)
+        requires qc_inv(b0), pop_effect(b0, b1, Some(id)),
+        ensures qc_except(b1, ix(id) as int)
+    {
+        let pi = pop_ix(pools_of(b0));
+        assert forall|d: BuildId| ix(d) < st_of(b1).len() && ix(d) != ix(id) implies
+            ((#[trigger] st_of(b1)[ix(d)]) == BuildState::Ready ==> b1.ready@.contains(d))
+            && (st_of(b1)[ix(d)] == BuildState::Queued ==> in_some_queue(b1, d)) by {
+            if st_of(b0)[ix(d)] == BuildState::Queued {
+                let j = choose|j: int| 0 <= j < pools_of(b0).len() && (#[trigger] pools_of(b0)[j]).1.queued@.contains(d);
+                let q = pools_of(b0)[j].1.queued@;
+                let k = choose|k: int| 0 <= k < q.len() && q[k] == d;
+                if j == pi { assert(k != 0); assert(pools_of(b1)[j].1.queued@[k - 1] == d); }
+                else { assert(pools_of(b1)[j].1.queued@[k] == d); }
+            }
+        }
+    }
+    /// qc_inv depends only on the states and the queues
+    pub proof fn lemma_qc_weaken(bs: BuildStates, x: int)
+        requires qc_inv(bs) ensures qc_except(bs, x) {}
+    pub proof fn lemma_lq_same(g: Graph, b0: BuildStates, b1: BuildStates)
+        requires lq(g, b0), same_bs(b0, b1)
+        ensures lq(g, b1)
+    {
+        reveal(lq_x);
+        assert forall|d: BuildId| ix(d) < st_of(b1).len() implies
+            ((#[trigger] st_of(b1)[ix(d)]) == BuildState::Ready ==> b1.ready@.contains(d))
+            && (st_of(b1)[ix(d)] == BuildState::Queued ==> in_some_queue(b1, d)) by {
+            if st_of(b0)[ix(d)] == BuildState::Queued {
+                let j = choose|j: int| 0 <= j < pools_of(b0).len() && (#[trigger] pools_of(b0)[j]).1.queued@.contains(d);
+                assert(pool_same(pools_of(b1)[j], pools_of(b0)[j]));
+                assert(pools_of(b1)[j].1.queued@.contains(d));
+            }
+        }
+    }
+    /// a transition of the build in hand (or of any build when none is in hand) that creates no Done build
+    pub proof fn lemma_lq_set(g: Graph, b0: BuildStates, b1: BuildStates, id: BuildId, build: Build, state: BuildState, pushq: bool, x: int)
+        requires lq_x(g, b0, x), x == -1 || x == ix(id), effect(b0, b1, id, build, state, pushq), ix(id) < st_of(b0).len(),
+            state != BuildState::Done,
+            state == BuildState::Want ==> !producers_done(g, st_of(b1), ix(id) as int),
+            state == BuildState::Queued ==> pushq && first_key(pools_of(b0), pool_name(build)) >= 0,
+        ensures lq(g, b1)
+    {
+        reveal(lq_x);
+        lemma_live_update(g, st_of(b0), ix(id) as int, state);
+        lemma_qc_set(g, b0, b1, id, build, state, pushq);
+    }
+    pub proof fn lemma_fresh_lq(g: Graph, bs: BuildStates)
+        requires fresh(bs)
+        ensures lq(g, bs), closed_u(g, st_of(bs)), closed_v(g, st_of(bs))
+    { reveal(lq_x); }
+    // --- ready_dependents and the liveness invariant
+    /// every Want build among the dependents of the first ko files of `outs` has been collected (opaque: stepped by the lemmas below)
+    #[verifier::opaque]
+    pub open spec fn collected(g: Graph, st: Seq<BuildState>, deps: Set<BuildId>, outs: Seq<FileId>, ko: int) -> bool {
+        forall|j: int, k: int| 0 <= j < ko && 0 <= k < gs::files(g)[ix(outs[j])].dependents@.len() ==>
+            collected_one(st, deps, #[trigger] gs::files(g)[ix(outs[j])].dependents@[k])
+    }
+    pub open spec fn collected_one(st: Seq<BuildState>, deps: Set<BuildId>, d: BuildId) -> bool {
+        ix(d) < st.len() && st[ix(d)] == BuildState::Want ==> deps.contains(d)
+    }
+    #[verifier::opaque]
+    pub open spec fn collected_in(g: Graph, st: Seq<BuildState>, deps: Set<BuildId>, f: FileId, ki: int) -> bool {
+        forall|k: int| 0 <= k < ki ==> collected_one(st, deps, #[trigger] gs::files(g)[ix(f)].dependents@[k])
+    }
+    pub proof fn lemma_collected_start(g: Graph, st: Seq<BuildState>, deps: Set<BuildId>, outs: Seq<FileId>)
+        ensures collected(g, st, deps, outs, 0) { reveal(collected); }
+    pub proof fn lemma_collected_in_start(g: Graph, st: Seq<BuildState>, deps: Set<BuildId>, f: FileId)
+        ensures collected_in(g, st, deps, f, 0) { reveal(collected_in); }
+    /// one more dependent looked at: skipped because it is not Want, or inserted
+    pub proof fn lemma_collected_step(g: Graph, st: Seq<BuildState>, d0: Set<BuildId>, d1: Set<BuildId>, outs: Seq<FileId>, ko: int, f: FileId, ki: int)
+        requires collected(g, st, d0, outs, ko), collected_in(g, st, d0, f, ki), 0 <= ki < gs::files(g)[ix(f)].dependents@.len(),
+            d1 == d0 || d1 == d0.insert(gs::files(g)[ix(f)].dependents@[ki]),
+            collected_one(st, d1, gs::files(g)[ix(f)].dependents@[ki]),
+        ensures collected(g, st, d1, outs, ko), collected_in(g, st, d1, f, ki + 1)
+    { reveal(collected); reveal(collected_in); }
+    /// one more output done
+    pub proof fn lemma_collected_next(g: Graph, st: Seq<BuildState>, deps: Set<BuildId>, outs: Seq<FileId>, ko: int)
+        requires collected(g, st, deps, outs, ko), 0 <= ko < outs.len(),
+            collected_in(g, st, deps, outs[ko], gs::files(g)[ix(outs[ko])].dependents@.len() as int),
+        ensures collected(g, st, deps, outs, ko + 1)
+    { reveal(collected); reveal(collected_in); }
+    /// while the collected dependents are re-checked: a Want build waits for a producer unless its re-check is still to come
+    #[verifier::opaque]
+    pub open spec fn rd_pending(g: Graph, bs: BuildStates, rem: Seq<BuildId>) -> bool {
+        qc_inv(bs) && forall|b: int| 0 <= b < st_of(bs).len() && #[trigger] st_of(bs)[b] == BuildState::Want ==>
+            !producers_done(g, st_of(bs), b) || rem.contains(BuildId(b as u32))
+    }
+    pub proof fn lemma_rd_begin(g: Graph, b0: BuildStates, b1: BuildStates, id: BuildId, deps: Set<BuildId>, rem: Seq<BuildId>)
+        requires lq_x(g, b0, ix(id) as int), gs::wf_graph(g), st_of(b0).len() == gs::builds(g).len(), ix(id) < st_of(b0).len(),
+            effect(b0, b1, id, gs::builds(g)[ix(id)], BuildState::Done, false), deps_complete(g),
+            collected(g, st_of(b1), deps, gs::builds(g)[ix(id)].outs.ids@, gs::builds(g)[ix(id)].outs.ids@.len() as int),
+            forall|x: BuildId| #[trigger] rem.contains(x) == deps.contains(x),
+        ensures rd_pending(g, b1, rem)
+    {
+        reveal(lq_x); reveal(rd_pending); reveal(collected); reveal(deps_complete);
+        let st0 = st_of(b0); let st1 = st_of(b1);
+        let i = ix(id);
+        let outs = gs::builds(g)[i].outs.ids@;
+        lemma_qc_set(g, b0, b1, id, gs::builds(g)[i], BuildState::Done, false);
+        assert forall|b: int| 0 <= b < st1.len() && #[trigger] st1[b] == BuildState::Want implies
+            !producers_done(g, st1, b) || rem.contains(BuildId(b as u32)) by {
+            assert(b != i);
+            assert(st0[b] == BuildState::Want);
+            let bd = gs::builds(g)[b];
+            let j = choose|j: int| 0 <= j < gs::ordering_ins(bd).len() && !producer_done(g, st0, #[trigger] gs::ordering_ins(bd)[j]);
+            let f = gs::ordering_ins(bd)[j];
+            assert(gs::wf_build(bd) && gs::build_ids_ok(g, bd));
+            assert(f == bd.ins.ids@[j]);
+            assert(gs::fid_ok(g, f));
+            let p = gs::files(g)[ix(f)].input->Some_0;
+            if ix(p) != i {
+                assert(st1[ix(p)] == st0[ix(p)]);
+                assert(!producer_done(g, st1, gs::ordering_ins(bd)[j]));
+            } else {
+                // f is an output of the finished build, so b is among f's dependents and was collected
+                assert(p.0 == id.0); assert(p == id);
+                let fi = ix(f) as int;
+                assert(gs::files(g)[fi].input == Some(id));
+                assert(FileId(fi as u32) == f) by { assert(f.0 as int == fi); }
+                assert(outs.contains(f));
+                let jo = choose|jo: int| 0 <= jo < outs.len() && outs[jo] == f;
+                let dl = gs::files(g)[ix(f)].dependents@;
+                assert(dl.contains(BuildId(b as u32)));
+                let k = choose|k: int| 0 <= k < dl.len() && dl[k] == BuildId(b as u32);
+                assert(collected_one(st1, deps, gs::files(g)[ix(outs[jo])].dependents@[k]));
+                assert(ix(BuildId(b as u32)) == b);
+                assert(deps.contains(BuildId(b as u32)));
+            }
+        }
+    }
+    pub proof fn lemma_rd_skip(g: Graph, bs: BuildStates, rem: Seq<BuildId>, d: BuildId)
+        requires rd_pending(g, bs, rem), rem.len() > 0, d == rem[0], ix(d) < st_of(bs).len(), st_of(bs).len() < 0x1_0000_0000,
+            st_of(bs)[ix(d)] == BuildState::Want ==> !producers_done(g, st_of(bs), ix(d) as int),
+        ensures rd_pending(g, bs, rem.drop_first())
+    {
+        reveal(rd_pending);
+        assert forall|b: int| 0 <= b < st_of(bs).len() && #[trigger] st_of(bs)[b] == BuildState::Want implies
+            !producers_done(g, st_of(bs), b) || rem.drop_first().contains(BuildId(b as u32)) by {
+            if producers_done(g, st_of(bs), b) {
+                let k = choose|k: int| 0 <= k < rem.len() && rem[k] == BuildId(b as u32);
+                assert(ix(BuildId(b as u32)) == b);
+                assert(k != 0);
+                assert(rem.drop_first()[k - 1] == BuildId(b as u32));
+            }
+        }
+    }
+    pub proof fn lemma_rd_ready(g: Graph, b0: BuildStates, b1: BuildStates, rem: Seq<BuildId>, d: BuildId, build: Build)
+        requires rd_pending(g, b0, rem), rem.len() > 0, d == rem[0], ix(d) < st_of(b0).len(), st_of(b0).len() < 0x1_0000_0000,
+            effect(b0, b1, d, build, BuildState::Ready, false),
+        ensures rd_pending(g, b1, rem.drop_first())
+    {
+        reveal(rd_pending);
+        lemma_qc_weaken(b0, ix(d) as int);
+        lemma_qc_set(g, b0, b1, d, build, BuildState::Ready, false);
+        let st0 = st_of(b0); let st1 = st_of(b1);
+        assert forall|b: int| 0 <= b < st1.len() && #[trigger] st1[b] == BuildState::Want implies
+            !producers_done(g, st1, b) || rem.drop_first().contains(BuildId(b as u32)) by {
+            assert(b != ix(d));
+            assert(st0[b] == BuildState::Want);
+            if producers_done(g, st0, b) {
+                let k = choose|k: int| 0 <= k < rem.len() && rem[k] == BuildId(b as u32);
+                assert(ix(BuildId(b as u32)) == b);
+                assert(k != 0);
+                assert(rem.drop_first()[k - 1] == BuildId(b as u32));
+            } else {
+                let j = choose|j: int| 0 <= j < gs::ordering_ins(gs::builds(g)[b]).len() && !producer_done(g, st0, #[trigger] gs::ordering_ins(gs::builds(g)[b])[j]);
+                assert(!producer_done(g, st1, gs::ordering_ins(gs::builds(g)[b])[j]));
+            }
+        }
+    }
+    pub proof fn lemma_rd_end(g: Graph, bs: BuildStates, rem: Seq<BuildId>)
+        requires rd_pending(g, bs, rem), rem.len() == 0
+        ensures lq(g, bs)
+    { reveal(rd_pending); reveal(lq_x); }
+    /// everything the liveness argument needs from the graph survives a finished command's changes to it
+    pub open spec fn live_graph(g: Graph) -> bool { deps_complete(g) && acyclic(g) }
+    pub proof fn lemma_live_ext(g0: Graph, g1: Graph, bs: BuildStates, x: int)
+        requires lq_x(g0, bs, x), closed_u(g0, st_of(bs)), live_graph(g0), gs::graph_ext(g0, g1), gs::wf_graph(g0), st_of(bs).len() == gs::builds(g0).len()
+        ensures lq_x(g1, bs, x), closed_u(g1, st_of(bs)), live_graph(g1)
+    {
+        reveal(lq_x); reveal(deps_complete);
+        lemma_live_graph_ext(g0, g1, st_of(bs));
+        let st = st_of(bs);
+        assert forall|b: int, j: int| 0 <= b < gs::builds(g1).len() && 0 <= j < gs::ordering_ins(gs::builds(g1)[b]).len() implies
+            gs::files(g1)[ix(#[trigger] gs::ordering_ins(gs::builds(g1)[b])[j])].dependents@.contains(BuildId(b as u32))
+            && (b < st.len() && st[b] != BuildState::Unknown ==> prod_wanted(g1, st, gs::ordering_ins(gs::builds(g1)[b])[j])) by {
+            assert(gs::builds(g1)[b].ins == gs::builds(g0)[b].ins);
+            assert(gs::wf_build(gs::builds(g0)[b]) && gs::build_ids_ok(g0, gs::builds(g0)[b]));
+            let f = gs::ordering_ins(gs::builds(g0)[b])[j];
+            assert(f == gs::builds(g0)[b].ins.ids@[j]);
+            assert(gs::fid_ok(g0, f));
+            assert(gs::files(g1)[ix(f)].dependents == gs::files(g0)[ix(f)].dependents);
+            if b < st.len() && st[b] != BuildState::Unknown { assert(closed_ord(g0, st, b)); assert(prod_wanted(g0, st, gs::ordering_ins(gs::builds(g0)[b])[j])); }
+        }
+        let t = choose|t: spec_fn(int) -> nat| topo_ok(g0, t);
+        assert(topo_ok(g1, t)) by {
+            assert forall|b: int, j: int| 0 <= b < gs::builds(g1).len() && 0 <= j < gs::ordering_ins(gs::builds(g1)[b]).len() implies
+                (match gs::files(g1)[ix(#[trigger] gs::ordering_ins(gs::builds(g1)[b])[j])].input { Some(p) => t(ix(p)) < t(b), None => true }) by {
+                assert(gs::builds(g1)[b].ins == gs::builds(g0)[b].ins);
+                assert(gs::wf_build(gs::builds(g0)[b]) && gs::build_ids_ok(g0, gs::builds(g0)[b]));
+                let f = gs::ordering_ins(gs::builds(g0)[b])[j];
+                assert(f == gs::builds(g0)[b].ins.ids@[j]);
+                assert(gs::fid_ok(g0, f));
+            }
+        }
+    }
+    // --- C06(a): the scheduler cannot stall
+    pub proof fn lemma_want_chain(g: Graph, st: Seq<BuildState>, t: spec_fn(int) -> nat, b: int, n: nat)
+        requires live_inv(g, st), closed_u(g, st), topo_ok(g, t), gs::wf_graph(g), st.len() == gs::builds(g).len(),
+            forall|i: int| 0 <= i < st.len() ==> (#[trigger] st[i]) == BuildState::Unknown || st[i] == BuildState::Want || st[i] == BuildState::Done,
+            0 <= b < st.len(), st[b] == BuildState::Want, t(b) <= n,
+        ensures false
+        decreases n
+    {
+        let bd = gs::builds(g)[b];
+        let j = choose|j: int| 0 <= j < gs::ordering_ins(bd).len() && !producer_done(g, st, #[trigger] gs::ordering_ins(bd)[j]);
+        let f = gs::ordering_ins(bd)[j];
+        assert(gs::wf_build(bd) && gs::build_ids_ok(g, bd));
+        assert(f == bd.ins.ids@[j]);
+        assert(gs::fid_ok(g, f));
+        assert(closed_ord(g, st, b));
+        assert(prod_wanted(g, st, gs::ordering_ins(bd)[j]));
+        let p = gs::files(g)[ix(f)].input->Some_0;
+        assert(st[ix(p)] == BuildState::Want);
+        assert(t(ix(p)) < t(b));
+        lemma_want_chain(g, st, t, ix(p) as int, (n - 1) as nat);
+    }
+    proof fn lemma_stall_no_running(bs: BuildStates, r: crate::task::Runner)
+        requires runner_inv(bs, r), crate::rs::live(r).len() == 0, st_of(bs).len() < 0x1_0000_0000
+        ensures forall|i: int| 0 <= i < st_of(bs).len() ==> #[trigger] st_of(bs)[i] != BuildState::Running
+    {
+        let st = st_of(bs);
+        assert forall|i: int| 0 <= i < st.len() implies #[trigger] st[i] != BuildState::Running by {
+            if st[i] == BuildState::Running {
+                let d = BuildId(i as u32);
+                assert(ix(d) == i);
+                assert(crate::rs::live(r).contains(d));
+                assert(crate::rs::live(r).len() > 0) by { vstd::set_lib::lemma_set_empty_equivalency_len(crate::rs::live(r)); }
+            }
+        }
+    }
+    proof fn lemma_stall_no_queued(g: Graph, bs: BuildStates, i: int)
+        requires bs_inv(g, bs), qc_inv(bs), no_eligible(bs), 0 <= i < st_of(bs).len(), st_of(bs)[i] == BuildState::Queued,
+            forall|k: int| 0 <= k < st_of(bs).len() ==> #[trigger] st_of(bs)[k] != BuildState::Running,
+        ensures false
+    {
+        let st = st_of(bs);
+        let d = BuildId(i as u32);
+        assert(ix(d) == i);
+        assert(in_some_queue(bs, d));
+        let j = choose|j: int| 0 <= j < pools_of(bs).len() && (#[trigger] pools_of(bs)[j]).1.queued@.contains(d);
+        lemma_count_none(st, running_in(g, bs, j));
+        assert(eligible(pools_of(bs)[j].1));
+    }
+    pub proof fn lemma_no_stall(g: Graph, bs: BuildStates, r: crate::task::Runner)
+        requires bs_inv(g, bs), lq(g, bs), closed_u(g, st_of(bs)), acyclic(g), runner_inv(bs, r),
+            crate::rs::live(r).len() == 0, bs.ready@.len() == 0, no_eligible(bs), no_failed(st_of(bs)), bs.total_pending > 0,
+        ensures false
+    {
+        reveal(lq_x);
+        let st = st_of(bs);
+        lemma_stall_no_running(bs, r);
+        assert forall|i: int| 0 <= i < st.len() implies (#[trigger] st[i]) == BuildState::Unknown || st[i] == BuildState::Want || st[i] == BuildState::Done by {
+            let d = BuildId(i as u32);
+            assert(ix(d) == i);
+            if st[i] == BuildState::Ready { assert(bs.ready@.contains(d)); }
+            if st[i] == BuildState::Queued { lemma_stall_no_queued(g, bs, i); }
+        }
+        // something is pending, so some build is Want
+        if forall|i: int| 0 <= i < st.len() ==> !is_pending()(i, #[trigger] st[i]) { lemma_count_none(st, is_pending()); }
+        let b = choose|i: int| 0 <= i < st.len() && is_pending()(i, #[trigger] st[i]);
+        assert(st[b] == BuildState::Want);
+        let t = choose|t: spec_fn(int) -> nat| topo_ok(g, t);
+        lemma_want_chain(g, st, t, b, t(b));
+    }
+    // --- the bundle Work::run carries: liveness invariant (build x in hand), closure of the wanted set, graph facts
+    #[verifier::opaque]
+    pub open spec fn lv(g: Graph, bs: BuildStates, x: int) -> bool { lq_x(g, bs, x) && closed_u(g, st_of(bs)) && live_graph(g) }
+    pub open spec fn no_eligible(bs: BuildStates) -> bool {
+        forall|j: int| 0 <= j < pools_of(bs).len() ==> !eligible((#[trigger] pools_of(bs)[j]).1)
+    }
+    pub proof fn lemma_lv_intro(g: Graph, bs: BuildStates)
+        requires lq(g, bs), closed_u(g, st_of(bs)), live_graph(g) ensures lv(g, bs, -1) { reveal(lv); }
+    pub proof fn lemma_lv_elim(g: Graph, bs: BuildStates)
+        requires lv(g, bs, -1) ensures lq(g, bs), closed_u(g, st_of(bs)), live_graph(g) { reveal(lv); }
+    pub proof fn lemma_lv_hand(g: Graph, bs: BuildStates, x: int)
+        requires lv(g, bs, -1) ensures lv(g, bs, x), lq_x(g, bs, x), deps_complete(g) { reveal(lv); reveal(lq_x); }
+    /// what a pop leaves: the popped build in hand, or nothing changed
+    pub open spec fn lv_pop(g: Graph, b1: BuildStates, r: Option<BuildId>) -> bool {
+        match r { Some(id) => lv(g, b1, ix(id) as int), None => lv(g, b1, -1) }
+    }
+    pub proof fn lemma_lv_open(g: Graph, bs: BuildStates, x: int)
+        requires lv(g, bs, x) ensures lq_x(g, bs, x), deps_complete(g) { reveal(lv); }
+    pub proof fn lemma_lv_pop_queued(g: Graph, b0: BuildStates, b1: BuildStates, r: Option<BuildId>)
+        requires lv(g, b0, -1), pop_effect(b0, b1, r)
+        ensures lv_pop(g, b1, r)
+    {
+        reveal(lv); reveal(lq_x);
+        match r {
+            Some(id) => { lemma_qc_pop_queued(b0, b1, id); }
+            None => {
+                assert forall|d: BuildId| ix(d) < st_of(b1).len() implies
+                    ((#[trigger] st_of(b1)[ix(d)]) == BuildState::Ready ==> b1.ready@.contains(d))
+                    && (st_of(b1)[ix(d)] == BuildState::Queued ==> in_some_queue(b1, d)) by {
+                    if st_of(b0)[ix(d)] == BuildState::Queued {
+                        let j = choose|j: int| 0 <= j < pools_of(b0).len() && (#[trigger] pools_of(b0)[j]).1.queued@.contains(d);
+                        assert(pools_of(b1)[j].1.queued@.contains(d));
+                    }
+                }
+            }
+        }
+    }
+    pub proof fn lemma_lv_pop_ready(g: Graph, b0: BuildStates, b1: BuildStates, r: Option<BuildId>)
+        requires lv(g, b0, -1), pop_ready_rel(b0, b1, r)
+        ensures lv_pop(g, b1, r)
+    {
+        reveal(lv); reveal(lq_x);
+        match r {
+            Some(id) => { lemma_qc_pop_ready(b0, b1, id); }
+            None => {
+                assert forall|d: BuildId| ix(d) < st_of(b1).len() implies
+                    ((#[trigger] st_of(b1)[ix(d)]) == BuildState::Ready ==> b1.ready@.contains(d))
+                    && (st_of(b1)[ix(d)] == BuildState::Queued ==> in_some_queue(b1, d)) by {
+                    if st_of(b0)[ix(d)] == BuildState::Queued {
+                        let j = choose|j: int| 0 <= j < pools_of(b0).len() && (#[trigger] pools_of(b0)[j]).1.queued@.contains(d);
+                        assert(pools_of(b1)[j].1.queued@.contains(d));
+                    }
+                }
+            }
+        }
+    }
+    /// a transition of an already wanted build that creates neither a Done nor a Want build
+    pub proof fn lemma_lv_set(g: Graph, b0: BuildStates, b1: BuildStates, id: BuildId, build: Build, state: BuildState, pushq: bool, x: int)
+        requires lv(g, b0, x), x == -1 || x == ix(id), effect(b0, b1, id, build, state, pushq), ix(id) < st_of(b0).len(),
+            st_of(b0)[ix(id)] != BuildState::Unknown,
+            state == BuildState::Queued || state == BuildState::Running || state == BuildState::Failed,
+            state == BuildState::Queued ==> pushq && first_key(pools_of(b0), pool_name(build)) >= 0,
+        ensures lv(g, b1, -1)
+    {
+        reveal(lv);
+        lemma_lq_set(g, b0, b1, id, build, state, pushq, x);
+        assert(closed_ord(g, st_of(b0), ix(id) as int));
+        lemma_closed_u_set(g, b0, b1, ix(id) as int, state);
+    }
+    pub proof fn lemma_lv_rd(g: Graph, b0: BuildStates, b1: BuildStates, id: BuildId)
+        requires lv(g, b0, ix(id) as int), rd_effect(b0, b1, id), lq(g, b1), ix(id) < st_of(b0).len(), st_of(b0)[ix(id)] != BuildState::Unknown
+        ensures lv(g, b1, -1)
+    {
+        reveal(lv);
+        let s0 = st_of(b0); let s1 = st_of(b1);
+        assert forall|b: int| 0 <= b < s1.len() && #[trigger] s1[b] != BuildState::Unknown implies closed_ord(g, s1, b) by {
+            assert(s0[b] != BuildState::Unknown);
+            assert(closed_ord(g, s0, b));
+            assert forall|j: int| 0 <= j < gs::ordering_ins(gs::builds(g)[b]).len() implies prod_wanted(g, s1, #[trigger] gs::ordering_ins(gs::builds(g)[b])[j]) by {
+                assert(prod_wanted(g, s0, gs::ordering_ins(gs::builds(g)[b])[j]));
+            }
+        }
+    }
+    pub proof fn lemma_lv_ext(g0: Graph, g1: Graph, bs: BuildStates, x: int)
+        requires lv(g0, bs, x), gs::graph_ext(g0, g1), gs::wf_graph(g0), st_of(bs).len() == gs::builds(g0).len()
+        ensures lv(g1, bs, x)
+    { reveal(lv); lemma_live_ext(g0, g1, bs, x); }
+    pub proof fn lemma_lv_stall(g: Graph, bs: BuildStates, r: crate::task::Runner)
+        requires bs_inv(g, bs), lv(g, bs, -1), runner_inv(bs, r), crate::rs::live(r).len() == 0, bs.ready@.len() == 0,
+            no_eligible(bs), no_failed(st_of(bs)), bs.total_pending > 0,
+        ensures false
+    {
+        reveal(lv);
+        lemma_no_stall(g, bs, r);
+    }
+    pub proof fn lemma_live_graph_ext(g0: Graph, g1: Graph, st: Seq<BuildState>)
+        requires live_inv(g0, st), gs::graph_ext(g0, g1), gs::wf_graph(g0), st.len() == gs::builds(g0).len()
+        ensures live_inv(g1, st)
+    {
+        assert forall|b: int| 0 <= b < st.len() && #[trigger] st[b] == BuildState::Want implies !producers_done(g1, st, b) by {
+            let j = choose|j: int| 0 <= j < gs::ordering_ins(gs::builds(g0)[b]).len() && !producer_done(g0, st, #[trigger] gs::ordering_ins(gs::builds(g0)[b])[j]);
+            assert(gs::builds(g1)[b].ins == gs::builds(g0)[b].ins);
+            assert(gs::wf_build(gs::builds(g0)[b]) && gs::build_ids_ok(g0, gs::builds(g0)[b]));
+            let f = gs::ordering_ins(gs::builds(g0)[b])[j];
+            assert(f == gs::builds(g0)[b].ins.ids@[j]);
+            assert(gs::fid_ok(g0, f));
+            assert(gs::files(g1)[ix(f)].input == gs::files(g0)[ix(f)].input);
+            assert(!producer_done(g1, st, gs::ordering_ins(gs::builds(g1)[b])[j]));
+        }
+    }
     }
 }
